@@ -54,7 +54,7 @@ CLAIMED = {
  'C05': dict(level='proof', design='6.C05',
    text='Layer M (proved): every Matcher.matches override is verified against a defining contract taken from the documented meaning - MessagePattern (connection part, then creating / destroying case, else object, name and argument parts all hold), '
         'ArgsMatcherList (every item satisfied by some argument, no excluded item by any; four nested loops with invariants), MatcherList (some alternative, no exclusion), the argument-value matchers per argument kind, ObjectId / ObjectName / Connection / Arg / Pair matchers; none writes anything or raises. '
-        'Layer P (bounded stand-in, not proof): matcher.parse + simplify is compared with a reference evaluator over generated abstract syntax of the documented grammar, rendered with arbitrary whitespace and redundant brackets, on 160 sample messages; WildcardMatcher and EqMatcher.matches are compared with independent references. '
+        'Layer P (bounded stand-in, not proof; the exception safety of the parser is proved under C18): matcher.parse + simplify is compared with a reference evaluator over generated abstract syntax of the documented grammar, rendered with arbitrary whitespace and redundant brackets, on 160 sample messages; WildcardMatcher and EqMatcher.matches are compared with independent references. '
         'The stand-in found two genuine defects (bracketed argument name+value rejected; ArgsMatcherList.simplify changing the meaning), both repaired by fix: commits.',
    note='Bounded: parser layer (6000 generated expressions per quick run, 60000 thorough), regular-expression based WildcardMatcher, EqMatcher over untyped values. Trusted: Matcher.matches interface contract for sub-matchers (pure), field schema. simplify() is covered only through the bounded comparison.',
    technique='contract-based deductive verification of every matches override (defining contracts, loop invariants); bounded native contract evaluation for the string parser'),
@@ -108,7 +108,7 @@ CLAIMED = {
    technique='contract-based deductive verification of run_program and the entry functions + bounded native stand-in for _Subprocess.run / main exit status'),
  'C18': dict(level='other', design='6.C18',
    text='Log-input half by contract: the reading loop raises nothing but UnicodeDecodeError and only for a strict decoder; all three input modes must establish a total decoder - this obligation failed at all three call sites on the pinned tree (undecodable bytes aborted the tool), a genuine defect repaired by a fix: commit; connections are closed by cleanup. '
-        'Matcher half: every Matcher.matches override is proved to raise nothing and write nothing (defining contracts shared with C05); the scanners of the matcher parser (_find_closing_brace, _split_on, _split_pair, _split_peren_at_end, _is_letter, _parse_int_matcher, _parse_generation_matcher, _parse_obj_id_matcher) are proved to raise nothing but RuntimeError (no index error on any text, the bracket table is always hit, the generation letters handed to letter_id_to_number satisfy its precondition); for the rest of the recursive-descent parser, that matcher.parse raises only RuntimeError and that an accepted matcher can be printed, simplified and evaluated is a bounded stand-in (generated strings over the matcher alphabet, arbitrary Unicode, documented-grammar expressions). '
+        'Matcher half: every Matcher.matches override is proved to raise nothing and write nothing (defining contracts shared with C05); the scanners of the matcher parser (_find_closing_brace, _split_on, _split_pair, _split_peren_at_end, _is_letter, _parse_int_matcher, _parse_generation_matcher, _parse_obj_id_matcher) are proved to raise nothing but RuntimeError (no index error on any text, the bracket table is always hit, the generation letters handed to letter_id_to_number satisfy its precondition); the rest of the recursive-descent parser (parse, _parse_message_pattern, _parse_obj_matcher, _parse_text_matcher, _parse_arg_matcher, _parse_arg_value_matcher, _parse_float_matcher, _parse_string_matcher) is proved to raise nothing but RuntimeError and to write nothing that exists, with three pieces assumed (_parse_matcher_list and _parse_args_list: list comprehensions over a callable parameter; identifier_matcher: a regular expression); that an accepted matcher can be printed, simplified and evaluated is a bounded stand-in (generated strings over the matcher alphabet, arbitrary Unicode, documented-grammar expressions). '
         'Command half: Controller.process_command on generated printable command lines (all command words, abbreviations, wl prefixes, arguments) raises nothing and responds - bounded stand-in.',
    note='Mixed: discharged obligations for the reading loop, the three input modes and matches(); bounded stand-ins (not proof) for the recursive-descent parser, str/simplify and command dispatch. Escape sequences in typed commands are outside C18 (printable lines) - see C17. MemoryError, signals, broken output pipes are outside the claim.',
    technique='contract-based deductive verification (raises clauses, reader precondition at call sites); native replay'),
